@@ -218,7 +218,7 @@ Section Sizes.
   Proof.
     intros Hs Hh. unfold compress_frame. cbn [rd_data].
     pose proof (compress_loop_spec cstate cblock cskip cfallback creset (S (length data)) lv slice (creset cs)
-                  {| rd_data := data; rd_script := script |} (frame_header_bytes wsize (is_some hash32)) Hs) as L.
+                  {| rd_data := data; rd_script := script |} (frame_header_bytes (Z.max wsize MAX_BLOCK_SIZE) (is_some hash32)) Hs) as L.
     cbn [rd_data] in L. specialize (L (Nat.lt_succ_diag_r _)).
     destruct (compress_loop cstate cblock cskip cfallback (S (length data)) lv slice (creset cs) _ _) as [[[o c] rr]|e|e]; cbn [rbind]; [|discriminate|discriminate].
     intros [= <- _ _]. cbn [drop_reader] in L.
